@@ -100,6 +100,14 @@ def cases_for(c, rng, counter, mode):
         _order_disc.append((describe(c), got_names, want_names))
     spec_t = g.enc_spec(c)
     def_t = g.enc_definition(c)
+    try:
+        import inspect
+        from . import scriptparse
+        src = inspect.getsource(c.cls.__init__)
+        pos_t, kw_t, body_t = scriptparse.parse_init(src)
+        _script_terms.append(("(Build_script_case %s %s %s %s)" % (spec_t, pos_t, kw_t, body_t), src))
+    except Exception as e:  # unknown source shape: recorded, never an alarm
+        _script_unrecognised.append("%s: %s" % (type(e).__name__, e))
     calls_t, seen, kinds = [], [], []
     counter[0] = 0
     for pos, kw, kind in g.call_shapes(c, rng, counter):
@@ -142,11 +150,38 @@ def expected_field_names(c):
     return [n for n in base if n not in own] + own
 
 
+_script_terms = []
+_script_unrecognised = []
+
+
+def script_tie():
+    """Translation validation of the init generator (supplementary evidence, never an alarm): the source
+    text of every real generated __init__ of this run, parsed into the model's statement language, must
+    be literally the model's script for that class."""
+    if not _script_terms:
+        return {"script_tie": "no classes"}
+    bad = vlib.run_cases(PROP, HEADER, "script_case", "script_case_ok", [t for t, _ in _script_terms], tag="script")
+    res = {"script_tie": {"classes_parsed": len(_script_terms), "script_equal_to_model": len(_script_terms) - len(bad),
+                          "different": len(bad), "unrecognised_source_shape": len(_script_unrecognised)}}
+    if bad:
+        t, src = _script_terms[bad[0]]
+        res["script_tie"]["first_difference"] = {"real_source": src,
+                                                 "model_script": vlib.eval_in_coq(PROP, HEADER, "script_model_of (%s)" % t)[:3000]}
+        print("NOTE: script-level tie: %d of %d real __init__ sources differ from the model's script "
+              "(not a verdict; see evidence)" % (len(bad), len(_script_terms)))
+    if _script_unrecognised:
+        res["script_tie"]["first_unrecognised"] = _script_unrecognised[0][:500]
+    return res
+
+
 def extra(tier, seed):
     from .vlib import Discrepancy
+    cov_tie = script_tie()
     out = [Discrepancy({"kind": "field-order"}, "fields(cls) order %r differs from inherited-then-own order %r" % (got, want),
                        {"input": {"spec": spec}, "got": got, "expected": want}) for spec, got, want in _order_disc[:10]]
-    return out, {"runtime_observations": _dist.get("defined", 0)}
+    cov = {"runtime_observations": _dist.get("defined", 0)}
+    cov.update(cov_tie)
+    return out, cov
 
 
 def exhaustive_single_field(tier, rng, uidc):
@@ -183,6 +218,8 @@ def generate(tier, seed, mode=None):
     cases = []
     _dist.clear()
     _order_disc.clear()
+    _script_terms.clear()
+    _script_unrecognised.clear()
     if mode == "c01" or tier == "thorough":
         for c in exhaustive_single_field(tier, rng, uidc):
             if c.def_error and c.def_error[0] != "ValueError":
